@@ -51,22 +51,55 @@ R.ufunc("sig_ok", ["X509Certificate", "bytes", "bytes", "Any"], "bool")
 R.ufunc("sig_params", ["int"], "Any")
 R.ufunc("cv_data", ["bytes", "bytes"], "bytes")
 
-_EXT = dict(trusted=True, note="third-party (cryptography) call: trusted stub, may raise")
-R.contract("X509Certificate.public_key", returns="CertPublicKey", raises={"Exception": None}, ensures=["result.g_cert == self"], **_EXT)
+# (C05) raise sets of the `cryptography` calls: from the library documentation, demonstrated natively - every declared
+# exception occurs, no other type occurs on malformed input - by tools/repro/tls_crypto_stub_probe.py
+_EXT = dict(trusted=True, note="third-party (cryptography) call: trusted stub with the documented raise set (tools/repro/tls_crypto_stub_probe.py)")
+# Certificate.public_key(): the SubjectPublicKeyInfo is parsed lazily - ValueError for a malformed key, UnsupportedAlgorithm
+# for a key type the library does not know (both occur for certificates that load_der_x509_certificate accepted)
+R.contract("X509Certificate.public_key", returns="CertPublicKey", raises={"ValueError": None, "UnsupportedAlgorithm": None}, ensures=["result.g_cert == self"], **_EXT)
 R.contract(
     "CertPublicKey.verify",
     params={"signature": "bytes", "data": "bytes", "params": "Any"},
-    # cryptography: verify() returns None when the signature is valid and raises InvalidSignature otherwise
-    raises={"Exception": None, "InvalidSignature": "not sig_ok(self.g_cert, signature, data, params)"},
+    # cryptography: verify() returns None when the signature is valid and raises InvalidSignature otherwise.  The
+    # PARAMETERS differ per key type (RSA: padding, hash; EC / DSA: one algorithm object; Ed25519 / Ed448: none; X25519 / X448
+    # keys have no verify at all): parameters of another key type are a Python call error - TypeError / AttributeError
+    raises={"TypeError": None, "AttributeError": None, "InvalidSignature": "not sig_ok(self.g_cert, signature, data, params)"},
     **_EXT,
+)
+# tls.py helper (12 lines) over two module-level tables of cryptography classes, outside the engine's subset: assumed BY
+# READING and cross-checked natively for all 65536 codes (tools/repro/tls_crypto_stub_probe.py): a deterministic function
+# of the code, KeyError exactly for a code that is neither ED25519 / ED448 nor a key of SIGNATURE_ALGORITHMS
+R.spec(
+    """
+def sig_alg_known(a):
+    # ED25519 0x0807, ED448 0x0808, and the keys of tls.SIGNATURE_ALGORITHMS (ECDSA 0x0403 0x0503 0x0603, RSA PKCS1 0x0201
+    # 0x0401 0x0501 0x0601, RSA-PSS-RSAE 0x0804 0x0805 0x0806)
+    return (a == 2055 or a == 2056 or a == 1027 or a == 1283 or a == 1539 or a == 513 or a == 1025 or a == 1281 or a == 1537
+            or a == 2052 or a == 2053 or a == 2054)
+
+def sigs_known(xs):
+    # QUANTIFIER-FREE on purpose (Context.__init__ builds a list of 7 to 9 codes): a `no-escape` obligation is refuted only
+    # by a model of ALL hypotheses, which the solvers find reliably only without universally quantified ones
+    return (len(xs) <= 9 and implies(len(xs) > 0, sig_alg_known(sel(xs, 0))) and implies(len(xs) > 1, sig_alg_known(sel(xs, 1)))
+            and implies(len(xs) > 2, sig_alg_known(sel(xs, 2))) and implies(len(xs) > 3, sig_alg_known(sel(xs, 3))) and implies(len(xs) > 4, sig_alg_known(sel(xs, 4)))
+            and implies(len(xs) > 5, sig_alg_known(sel(xs, 5))) and implies(len(xs) > 6, sig_alg_known(sel(xs, 6))) and implies(len(xs) > 7, sig_alg_known(sel(xs, 7)))
+            and implies(len(xs) > 8, sig_alg_known(sel(xs, 8))))
+
+def suite_known(c):
+    # keys of tls.CIPHER_SUITES (the suites with a hash function): 0x1301, 0x1302, 0x1303
+    return c == 4865 or c == 4866 or c == 4867
+
+def suites_known(xs):
+    return forall(lambda k: implies(0 <= k < len(xs), suite_known(sel(xs, k))))
+"""
 )
 R.contract(
     "signature_algorithm_params",
     returns="Any",
-    raises={"Exception": None},
+    raises={"KeyError": "not sig_alg_known(signature_algorithm)"},
     ensures=["result == sig_params(signature_algorithm)"],
     trusted=True,
-    note="tls.py helper building cryptography padding/hash objects: a deterministic function of the algorithm code (KeyError for unknown codes)",
+    note="tls.py helper building cryptography padding/hash objects: a deterministic function of the algorithm code, KeyError exactly for unknown codes (by reading + native sweep)",
 )
 # verify_certificate: under contract in contracts/tls_auth.py (C03): which certificates the verifier trusted, dates and name
 # check, every verification failure an Alert
@@ -76,11 +109,13 @@ R.field_types("KeySchedule", algorithm="Any", cipher_suite="CipherSuite", genera
 _KS = dict(trusted=True, note="KeySchedule wraps cryptography hash/HKDF objects: stub (g_hash = bytes fed to the transcript hash so far)")
 R.contract("KeySchedule.update_hash", params={"data": "bytes"}, modifies=["self.g_hash"], ensures=["same(self.g_hash, old(self.g_hash) + data)"], **_KS)
 R.contract("KeySchedule.extract", params={"key_material": "Optional[bytes]"}, modifies=["self.generation", "self.secret"], ensures=["self.generation == old(self.generation) + 1"], **_KS)
-R.contract("KeySchedule.derive_secret", returns="bytes", raises={"Exception": None}, **_KS)
+R.contract("KeySchedule.derive_secret", returns="bytes", **_KS)  # HKDF-Expand-Label with length = digest size: total on bytes
 # (C03) the Finished MAC (RFC 8446 4.4.4: HMAC(finished_key(secret), Transcript-Hash)) is SOME fixed function of the
 # bytes hashed so far and the base secret - nothing else is used about it
 R.ufunc("fin_mac", ["bytes", "Optional[bytes]"], "bytes")
-R.contract("KeySchedule.finished_verify_data", params={"secret": "Optional[bytes]"}, returns="bytes", raises={"Exception": None},
+R.contract("KeySchedule.finished_verify_data", params={"secret": "Optional[bytes]"}, returns="bytes",
+           # HKDFExpand.derive(None) is a TypeError: the base secret must exist (proved at the call sites from the handshake state)
+           requires=["secret is not None"],
            ensures=["same(result, fin_mac(self.g_hash, secret))"], **_KS)
 R.contract("KeySchedule.certificate_verify_data", returns="bytes", ensures=["same(result, cv_data(self.g_hash, context_string))"], **_KS)
 
@@ -90,17 +125,8 @@ R.field_types("Certificate", request_context="bytes", certificates="list[tuple[b
 R.field_types("CertificateRequest", request_context="bytes", signature_algorithms="Optional[list[int]]", other_extensions="list[tuple[int,bytes]]")
 R.field_types("CertificateVerify", algorithm="int", signature="bytes")
 R.field_types("Finished", verify_data="bytes")
-for _p in ("server_hello", "client_hello", "encrypted_extensions", "certificate", "certificate_request", "certificate_verify", "finished", "new_session_ticket"):
-    R.contract(
-        "pull_" + _p,
-        trusted=True,
-        # what the parsers raise by reading them: BufferReadError (truncated), AlertDecodeError (block length), AssertionError
-        # (pull_handshake_type), IndexError / UnicodeDecodeError ...: all covered by "some exception"; never the
-        # unexpected-message alert
-        raises={"BufferReadError": None, "Alert": None, "Exception": None},
-        modifies=["buf.g_pos"],
-        note="tls.py message parser: trusted stub (returns an arbitrary well-typed message object, only moves the read position)",
-    )
+# the message parsers pull_<message> are under exception-effect contracts of their own (contracts/tls_noraise.py, C05):
+# they raise only BufferReadError / tls.Alert subclasses, move only the read position and return a new message object
 
 # ------------------------------------------------------------------------------------------------ Context
 R.field_types(
@@ -284,6 +310,53 @@ H_FIN = [
 ]
 R.invariant("Context", H_FIN)
 
+# ---- (C05) invariants the exception-effect proofs need
+# N: hold in EVERY state, also after a failed message (class invariant)
+H_NORAISE = [
+    # N1 while a CertificateVerify is awaited the peer's certificate is stored (the Certificate handlers store it before they
+    # change the state, and store nothing when they fail)
+    "implies(self.state == State.CLIENT_EXPECT_CERTIFICATE_VERIFY or self.state == State.SERVER_EXPECT_CERTIFICATE_VERIFY, self._peer_certificate is not None)",
+    # N2 / N3 the advertised signature algorithms and cipher suites are ones tls.py has table entries for (set once by __init__)
+    "sigs_known(self._signature_algorithms)",
+    "suites_known(self._cipher_suites)",
+]
+R.invariant("Context", H_NORAISE)
+# L ("live"): established by every NORMAL return of handle_message, NOT by an exceptional one - a handler that fails
+# half-way leaves e.g. the key schedule advanced or the ClientHello key-schedule proxy consumed while the state still
+# names the same message.  handle_message ASSUMES it at entry (contract below): a Context must not be fed again after it
+# raised - QuicConnection closes the connection on the first alert and drops every later datagram.
+R.field_types("KeyScheduleProxy", g_suites="list[int]", g_gen="int")
+R.spec(
+    """
+def live(c):
+    return (implies(c.state == State.CLIENT_EXPECT_SERVER_HELLO,
+                    c._key_schedule_proxy is not None and some(c._key_schedule_proxy).g_gen == 1 and same(some(c._key_schedule_proxy).g_suites, c._cipher_suites)
+                    and implies(c._key_schedule_psk is not None, some(c._key_schedule_psk).generation == 1))
+            and implies(c.state == State.CLIENT_EXPECT_ENCRYPTED_EXTENSIONS or c.state == State.CLIENT_EXPECT_CERTIFICATE_REQUEST_OR_CERTIFICATE or c.state == State.CLIENT_EXPECT_CERTIFICATE
+                        or c.state == State.CLIENT_EXPECT_CERTIFICATE_VERIFY or c.state == State.CLIENT_EXPECT_FINISHED,
+                        c.key_schedule is not None and some(c.key_schedule).generation == 2 and c._dec_key is not None)
+            and implies(c.state == State.CLIENT_EXPECT_CERTIFICATE_REQUEST_OR_CERTIFICATE or c.state == State.CLIENT_EXPECT_CERTIFICATE
+                        or c.state == State.CLIENT_EXPECT_CERTIFICATE_VERIFY or c.state == State.CLIENT_EXPECT_FINISHED, c._enc_key is not None)
+            and implies(c.state == State.SERVER_EXPECT_CERTIFICATE or c.state == State.SERVER_EXPECT_CERTIFICATE_VERIFY or c.state == State.SERVER_EXPECT_FINISHED, c._dec_key is not None))
+"""
+)
+LIVE = "live(self)"
+# the configured certificate chain is a list of certificates (its Python annotation is list[x509.Certificate]; the model
+# types its elements Optional only because the code concatenates it with [self.certificate], an Optional attribute)
+R.spec(
+    """
+def chain_present(xs):
+    return forall(lambda k: implies(0 <= k < len(xs), sel(xs, k) is not None))
+"""
+)
+CHAIN = "chain_present(self.certificate_chain)"
+# the message handed to a handler: the reassembly loop of handle_message cut it at its own length field, and dispatched on
+# its first byte (the parsers ASSERT that byte; the dispatcher's final `assert input_buf.eof()` needs the length)
+def _MSG(t):
+    return ["input_buf.g_pos == 0 and input_buf.g_cap >= 4 and input_buf.g_cap == 4 + be3(input_buf.g_mem, 1)", "at(input_buf.g_mem, 0) == %d" % t]
+_EOF = "input_buf.g_pos == input_buf.g_cap"
+BRE, BWE, CBE, ALERT = "BufferReadError", "BufferWriteError", "CallbackError", "Alert"
+
 _NOUM = {"AlertUnexpectedMessage": "False"}  # handlers never produce the dispatcher's alert themselves
 _KS_FIELDS = ["KeySchedule.g_hash[*]", "KeySchedule.generation[*]", "KeySchedule.secret[*]"]
 
@@ -305,7 +378,7 @@ R.contract(
     use_invariant=False,
     frame=True,
     requires=["self.key_schedule is not None"],
-    raises={"CallbackError": None, "Exception": None},
+    raises={"CallbackError": None},
     modifies=["self._enc_key", "self._dec_key", "self.g_key_log"],
     ensures=[
         "same(self.g_key_log, old(self.g_key_log) + [(direction, epoch)])",
@@ -313,7 +386,6 @@ R.contract(
         "implies(direction != Direction.ENCRYPT, self._dec_key is not None and same(self._enc_key, old(self._enc_key)))",
     ],
     on_raise={
-        "Exception": ["len(self.g_key_log) == len(old(self.g_key_log))", "keys_same(self)"],
         "CallbackError": [
             "same(self.g_key_log, old(self.g_key_log) + [(direction, epoch)])",
             "implies(direction == Direction.ENCRYPT, same(self._dec_key, old(self._dec_key)))",
@@ -329,9 +401,16 @@ R.contract(
     "Context._check_certificate_verify_signature",
     use_invariant=False,
     frame=True,
-    raises={"AlertDecryptError": "not cv_checked(self, verify)", "Exception": None},
+    # (C05) CLAIM: nothing but the decrypt_error alert leaves it.  REFUTED on the unchanged tree (known finding, natively
+    # reproduced: tools/repro/c05_tls_certificate_verify_keytype.py): the peer chooses both the certificate and the
+    # algorithm code - parameters that do not fit the certificate's key type make cryptography's verify() raise TypeError /
+    # AttributeError, an unusable SubjectPublicKeyInfo makes public_key() raise ValueError / UnsupportedAlgorithm; only
+    # InvalidSignature is converted.  Repair: tools/fixes/c05_tls_nonalert2.patch
+    requires=["self._peer_certificate is not None", "self.key_schedule is not None", "sigs_known(self._signature_algorithms)"],
+    # (AlertIllegalParameter: what the repair raises for a key that cannot be used with the algorithm; never on a path that returns)
+    raises={"AlertDecryptError": "not cv_checked(self, verify)", "AlertIllegalParameter": None},
     modifies=[],
-    prop=["C11"],
+    prop=["C11", "C05"],
 )
 
 # ---- the dispatcher
@@ -344,13 +423,23 @@ R.contract(
     "Context._handle_reassembled_message",
     params={"output_buf": "dict[Epoch,Buffer]"},
     frame=True,
-    # handle_message never dispatches before the ClientHello was sent (it returns early in CLIENT_HANDSHAKE_START)
-    requires=["self.state != State.CLIENT_HANDSHAKE_START"],
+    # handle_message never dispatches before the ClientHello was sent (it returns early in CLIENT_HANDSHAKE_START); the
+    # buffer holds exactly one message, cut at its own length field, and message_type is its first byte; L (live) as above
+    requires=["self.state != State.CLIENT_HANDSHAKE_START",
+              "input_buf.g_pos == 0 and input_buf.g_cap >= 4 and input_buf.g_cap == 4 + be3(input_buf.g_mem, 1)", "at(input_buf.g_mem, 0) == message_type", LIVE,
+              "Epoch.INITIAL in output_buf and Epoch.HANDSHAKE in output_buf and Epoch.ONE_RTT in output_buf"],
+    # (C05) the COMPLETE set of exception types: the unexpected-message alert exactly for an illegal (state, type) pair, any
+    # other tls.Alert, BufferReadError (truncated message: converted into AlertDecodeError by handle_message), what the
+    # callbacks raise, BufferWriteError (the caller's output buffer is too small for the local flight).  In particular
+    # the final `assert input_buf.eof()` cannot fail: every parser consumes exactly the declared message length
     raises={
         "AlertUnexpectedMessage": "not legal_next(self.state, message_type)",
-        "CallbackError": None,
-        "AssertionError": None,
-        "Exception": None,
+        ALERT: None,
+        BRE: None,
+        CBE: None,
+        BWE: None,
+        "MemoryError": None,  # allocation of a scratch Buffer (_server_expect_finished)
+        "ValueError": None, "Error": None,  # unloadable LOCAL trust configuration (client CertificateVerify handler)
     },
     on_raise={
         # refused: nothing happened at all
@@ -361,9 +450,13 @@ R.contract(
             "self.alpn_negotiated == old(self.alpn_negotiated) and self.early_data_accepted == old(self.early_data_accepted)",
         ],
         # any other failure concerns a LEGAL message, and the state is not advanced
-        "Exception": ["legal_next(old(self.state), message_type)", "self.state == old(self.state)"],
-        "CallbackError": ["legal_next(old(self.state), message_type)", "self.state == old(self.state)"],
-        "AssertionError": ["legal_next(old(self.state), message_type)"],
+        ALERT: ["legal_next(old(self.state), message_type)", "self.state == old(self.state)"],
+        BRE: ["legal_next(old(self.state), message_type)", "self.state == old(self.state)"],
+        BWE: ["legal_next(old(self.state), message_type)", "self.state == old(self.state)"],
+        CBE: ["legal_next(old(self.state), message_type)", "self.state == old(self.state)"],
+        "MemoryError": ["legal_next(old(self.state), message_type)", "self.state == old(self.state)"],
+        "ValueError": ["self.state == old(self.state)", "self._verify_mode != ssl.CERT_NONE and vc_config_bad(self._cadata, self._cafile, self._capath)"],
+        "Error": ["self.state == old(self.state)", "self._verify_mode != ssl.CERT_NONE and vc_config_bad(self._cadata, self._cafile, self._capath)"],
     },
     modifies=[
         "self.state", "self._enc_key", "self._dec_key", "self.g_key_log", "self.g_cv_ok", "self.g_psk_sel", "self._session_resumed",
@@ -386,8 +479,9 @@ R.contract(
         "implies(old(self.state) == State.SERVER_EXPECT_FINISHED, same(self.g_key_log, old(self.g_key_log) + [(Direction.DECRYPT, Epoch.ONE_RTT)]))",
         # application-data read keys are released only by a matching Finished
         "implies(old(self.state) == State.CLIENT_EXPECT_FINISHED or old(self.state) == State.SERVER_EXPECT_FINISHED, self.g_fin_ok)",
+        LIVE,
     ],
-    prop=["C11"],
+    prop=["C11", "C05"],
 )
 
 # ------------------------------------------------------------------------------------------------ handlers
@@ -402,19 +496,28 @@ _T_FED = "hash_fed(self.key_schedule.g_hash, old(self.key_schedule.g_hash), inpu
 R.contract(
     "x509.load_der_x509_certificate",
     returns="X509Certificate",
-    raises={"Exception": None},
+    # documented: ValueError.  OBSERVED natively in addition (tools/repro/tls_crypto_stub_probe.py): x509.InvalidVersion - a
+    # direct subclass of Exception, NOT of ValueError - for a certificate whose version field is not v1 / v3
+    raises={"ValueError": None, "InvalidVersion": None},
     trusted=True,
-    note="cryptography: DER parser, returns a certificate object or raises",
+    note="cryptography: DER parser, returns a certificate object or raises ValueError / x509.InvalidVersion",
 )
 
+# (C11 / C05) all-or-nothing: every entry of the peer's list is parsed BEFORE anything is stored, so a failure stores
+# nothing (the server-side invariant H6 - no peer certificate before an accepted Certificate message - survives it) and a
+# success stores the first entry as the peer certificate.  CLAIM (C05): only alerts leave it - decode_error for an empty
+# list, bad_certificate for an entry that does not parse.  The x509.InvalidVersion outcome of the parser is NOT converted
+# on the unchanged tree: known finding (obligation no-escape.InvalidVersion), repair in tools/fixes/c05_tls_nonalert2.patch
 R.contract(
     "Context._set_peer_certificate",
     use_invariant=False,
     frame=True,
-    raises={"Exception": None},
+    raises={"AlertDecodeError": "len(certificate.certificates) == 0", "AlertBadCertificate": None},
     modifies=["self._peer_certificate", "self._peer_certificate_chain"],
-    ensures=["self._peer_certificate is not None"],
-    prop=["C11"],
+    ensures=["self._peer_certificate is not None", "len(certificate.certificates) > 0"],
+    on_raise={"AlertDecodeError": ["self._peer_certificate == old(self._peer_certificate)", "same(self._peer_certificate_chain, old(self._peer_certificate_chain))"],
+              "AlertBadCertificate": ["self._peer_certificate == old(self._peer_certificate)", "same(self._peer_certificate_chain, old(self._peer_certificate_chain))", "len(certificate.certificates) > 0"]},
+    prop=["C11", "C05"],
 )
 
 # A.1 WAIT_EE: EncryptedExtensions; then WAIT_FINISHED when the PSK is in use, WAIT_CERT_CR otherwise.
@@ -422,8 +525,8 @@ R.contract(
 R.contract(
     "Context._client_handle_encrypted_extensions",
     frame=True,
-    requires=["self.state == State.CLIENT_EXPECT_ENCRYPTED_EXTENSIONS"],
-    raises=dict(_NOUM, CallbackError=None, Exception=None),
+    requires=["self.state == State.CLIENT_EXPECT_ENCRYPTED_EXTENSIONS", LIVE] + _MSG(8),
+    raises={"AlertUnexpectedMessage": "False", ALERT: None, BRE: None, CBE: None},
     modifies=["self.alpn_negotiated", "self.early_data_accepted", "self.received_extensions", "self._enc_key", "self._dec_key", "self.g_key_log", "self.state", "input_buf.g_pos", _HASH],
     ensures=[
         "self.state == (State.CLIENT_EXPECT_FINISHED if old(self._session_resumed) else State.CLIENT_EXPECT_CERTIFICATE_REQUEST_OR_CERTIFICATE)",
@@ -431,25 +534,26 @@ R.contract(
         "same(self._dec_key, old(self._dec_key))",
         "auth_same(self)",
         _T_FED,
+        LIVE, _EOF,
     ],
     on_raise={
-        "Exception": _FAIL,
+        ALERT: _FAIL, BRE: _FAIL,
         "CallbackError": ["self.state == old(self.state)", "auth_same(self)", "same(self._dec_key, old(self._dec_key))",
                           "same(self.g_key_log, old(self.g_key_log)) or same(self.g_key_log, old(self.g_key_log) + [(Direction.ENCRYPT, Epoch.HANDSHAKE)])"],
     },
-    prop=["C11"],
+    prop=["C11", "C05"],
 )
 
 # A.1 WAIT_CERT_CR -CertificateRequest-> WAIT_CERT
 R.contract(
     "Context._client_handle_certificate_request",
     frame=True,
-    requires=["self.state == State.CLIENT_EXPECT_CERTIFICATE_REQUEST_OR_CERTIFICATE"],
-    raises=dict(_NOUM, Exception=None),
+    requires=["self.state == State.CLIENT_EXPECT_CERTIFICATE_REQUEST_OR_CERTIFICATE", LIVE] + _MSG(13),
+    raises={"AlertUnexpectedMessage": "False", ALERT: None, BRE: None},
     modifies=["self._certificate_request", "self.state", "input_buf.g_pos", _HASH],
-    ensures=["self.state == State.CLIENT_EXPECT_CERTIFICATE", "len(self.g_key_log) == len(old(self.g_key_log))", "keys_same(self)", "auth_same(self)", _T_FED],
-    on_raise={"Exception": _FAIL},
-    prop=["C11"],
+    ensures=["self.state == State.CLIENT_EXPECT_CERTIFICATE", "len(self.g_key_log) == len(old(self.g_key_log))", "keys_same(self)", "auth_same(self)", _T_FED, LIVE, _EOF],
+    on_raise={ALERT: _FAIL, BRE: _FAIL},
+    prop=["C11", "C05"],
 )
 
 # A.1 WAIT_CERT_CR / WAIT_CERT -Certificate-> WAIT_CV
@@ -458,12 +562,13 @@ _AUTH_BUT_CERT = "self.g_cv_ok == old(self.g_cv_ok) and self.g_fin_ok == old(sel
 R.contract(
     "Context._client_handle_certificate",
     frame=True,
-    requires=["self.state == State.CLIENT_EXPECT_CERTIFICATE_REQUEST_OR_CERTIFICATE or self.state == State.CLIENT_EXPECT_CERTIFICATE"],
-    raises=dict(_NOUM, Exception=None),
+    requires=["self.state == State.CLIENT_EXPECT_CERTIFICATE_REQUEST_OR_CERTIFICATE or self.state == State.CLIENT_EXPECT_CERTIFICATE", LIVE] + _MSG(11),
+    raises={"AlertUnexpectedMessage": "False", ALERT: None, BRE: None},
     modifies=["self._peer_certificate", "self._peer_certificate_chain", "self.state", "input_buf.g_pos", _HASH],
-    ensures=["self.state == State.CLIENT_EXPECT_CERTIFICATE_VERIFY", "len(self.g_key_log) == len(old(self.g_key_log))", "keys_same(self)", _AUTH_BUT_CERT, "self._peer_certificate is not None", _T_FED],
-    on_raise={"Exception": ["self.state == old(self.state)", "len(self.g_key_log) == len(old(self.g_key_log))", "keys_same(self)", _AUTH_BUT_CERT]},
-    prop=["C11"],
+    ensures=["self.state == State.CLIENT_EXPECT_CERTIFICATE_VERIFY", "len(self.g_key_log) == len(old(self.g_key_log))", "keys_same(self)", _AUTH_BUT_CERT, "self._peer_certificate is not None", _T_FED, LIVE, _EOF],
+    on_raise={ALERT: ["self.state == old(self.state)", "len(self.g_key_log) == len(old(self.g_key_log))", "keys_same(self)", "auth_same(self)"],
+              BRE: ["self.state == old(self.state)", "len(self.g_key_log) == len(old(self.g_key_log))", "keys_same(self)", "auth_same(self)"]},
+    prop=["C11", "C05"],
 )
 
 # A.1 WAIT_CV -CertificateVerify-> WAIT_FINISHED, and ONLY with a valid signature (4.4.3).  g_cv_ok records the
@@ -471,8 +576,10 @@ R.contract(
 R.contract(
     "Context._client_handle_certificate_verify",
     frame=True,
-    requires=["self.state == State.CLIENT_EXPECT_CERTIFICATE_VERIFY"],
-    raises=dict(_NOUM, Exception=None),
+    requires=["self.state == State.CLIENT_EXPECT_CERTIFICATE_VERIFY", LIVE] + _MSG(15),
+    # (C05) besides alerts: ValueError / OpenSSL.crypto.Error exactly for an unloadable LOCAL trust configuration (CA data /
+    # file / path) - verify_certificate's contract (contracts/tls_auth.py), never caused by the peer
+    raises={"AlertUnexpectedMessage": "False", ALERT: None, BRE: None, "ValueError": None, "Error": None},
     modifies=["self.g_cv_ok", "self.state", "input_buf.g_pos", _HASH],
     ghost_exit={"self.g_cv_ok": "old(cv_checked(self, verify))"},
     ensures=[
@@ -486,17 +593,20 @@ R.contract(
         # extra certificates serving as untrusted intermediates only (contracts/tls_auth.py, verify_certificate)
         "implies(self._verify_mode != ssl.CERT_NONE, self._peer_certificate is not None and not vc_expired(self._peer_certificate) and not vc_name_bad(self._peer_certificate, self._server_name)"
         " and vc_chain_ok(self._peer_certificate, self._peer_certificate_chain, self._cadata, self._cafile, self._capath))",
+        LIVE, _EOF,
     ],
-    on_raise={"Exception": _FAIL},
-    prop=["C11"],
+    on_raise={ALERT: _FAIL, BRE: _FAIL,
+              "ValueError": _FAIL + ["self._verify_mode != ssl.CERT_NONE and vc_config_bad(self._cadata, self._cafile, self._capath)"],
+              "Error": _FAIL + ["self._verify_mode != ssl.CERT_NONE and vc_config_bad(self._cadata, self._cafile, self._capath)"]},
+    prop=["C11", "C05"],
 )
 
 # A.2 WAIT_CERT -Certificate-> WAIT_CV (non-empty) | WAIT_FINISHED (empty: "no client auth")
 R.contract(
     "Context._server_handle_certificate",
     frame=True,
-    requires=["self.state == State.SERVER_EXPECT_CERTIFICATE"],
-    raises=dict(_NOUM, CallbackError=None, Exception=None),
+    requires=["self.state == State.SERVER_EXPECT_CERTIFICATE", LIVE] + _MSG(11),
+    raises={"AlertUnexpectedMessage": "False", ALERT: None, BRE: None, CBE: None, BWE: None, "MemoryError": None},
     modifies=["self._peer_certificate", "self._peer_certificate_chain", "self.state", "self._expected_verify_data", "self.g_fin_base", "self.g_fin_key", "self._new_session_ticket", "input_buf.g_pos", "output_buf.g_pos", "output_buf.g_mem", _HASH],
     ensures=[
         "self.state == (State.SERVER_EXPECT_CERTIFICATE_VERIFY if self._peer_certificate is not None else State.SERVER_EXPECT_FINISHED)",
@@ -504,18 +614,19 @@ R.contract(
         _AUTH_BUT_CERT,
         "implies(self.state == State.SERVER_EXPECT_CERTIFICATE_VERIFY, %s)" % _T_FED,
         "hash_extends(self.key_schedule.g_hash, old(self.key_schedule.g_hash))",
+        LIVE, _EOF,
     ],
     cuts={"if certificate.certificates:": [_T_FED]},
-    on_raise={"Exception": ["self.state == old(self.state)", "len(self.g_key_log) == len(old(self.g_key_log))", "keys_same(self)", _AUTH_BUT_CERT], "CallbackError": ["self.state == old(self.state)", "len(self.g_key_log) == len(old(self.g_key_log))", "keys_same(self)", _AUTH_BUT_CERT]},
-    prop=["C11"],
+    on_raise={k_: ["self.state == old(self.state)", "len(self.g_key_log) == len(old(self.g_key_log))", "keys_same(self)", "auth_same(self)"] for k_ in (ALERT, BRE, CBE, BWE, "MemoryError")},
+    prop=["C11", "C05"],
 )
 
 # A.2 WAIT_CV -CertificateVerify-> WAIT_FINISHED, only with a valid signature (client role string)
 R.contract(
     "Context._server_handle_certificate_verify",
     frame=True,
-    requires=["self.state == State.SERVER_EXPECT_CERTIFICATE_VERIFY"],
-    raises=dict(_NOUM, CallbackError=None, Exception=None),
+    requires=["self.state == State.SERVER_EXPECT_CERTIFICATE_VERIFY", LIVE] + _MSG(15),
+    raises={"AlertUnexpectedMessage": "False", ALERT: None, BRE: None, CBE: None, BWE: None, "MemoryError": None},
     modifies=["self.g_cv_ok", "self.state", "self._expected_verify_data", "self.g_fin_base", "self.g_fin_key", "self._new_session_ticket", "input_buf.g_pos", "output_buf.g_pos", "output_buf.g_mem", _HASH],
     ghost_exit={"self.g_cv_ok": "old(cv_checked(self, verify))"},
     cuts={"self._server_expect_finished(output_buf)": [_T_FED]},
@@ -524,17 +635,19 @@ R.contract(
         "self.g_cv_ok",
         "len(self.g_key_log) == len(old(self.g_key_log))", "keys_same(self)",
         "self.g_fin_ok == old(self.g_fin_ok) and self.g_psk_sel == old(self.g_psk_sel) and self._session_resumed == old(self._session_resumed) and self._peer_certificate == old(self._peer_certificate) and self._is_client == old(self._is_client) and self.key_schedule == old(self.key_schedule)",
+        LIVE, _EOF,
     ],
-    on_raise={"Exception": _FAIL, "CallbackError": ["self.state == old(self.state)", "len(self.g_key_log) == len(old(self.g_key_log))", "keys_same(self)"]},
-    prop=["C11"],
+    on_raise={ALERT: _FAIL, BRE: _FAIL, BWE: ["self.state == old(self.state)", "len(self.g_key_log) == len(old(self.g_key_log))", "keys_same(self)"],
+              "MemoryError": ["self.state == old(self.state)", "len(self.g_key_log) == len(old(self.g_key_log))", "keys_same(self)"], "CallbackError": ["self.state == old(self.state)", "len(self.g_key_log) == len(old(self.g_key_log))", "keys_same(self)"]},
+    prop=["C11", "C05"],
 )
 
 # A.2 WAIT_FINISHED -Finished-> CONNECTED; 7.1: the client application traffic secret is installed for reading only now
 R.contract(
     "Context._server_handle_finished",
     frame=True,
-    requires=["self.state == State.SERVER_EXPECT_FINISHED"],
-    raises=dict(_NOUM, CallbackError=None, Exception=None),
+    requires=["self.state == State.SERVER_EXPECT_FINISHED", LIVE] + _MSG(20),
+    raises={"AlertUnexpectedMessage": "False", ALERT: None, BRE: None, CBE: None},
     modifies=["self._dec_key", "self._next_dec_key", "self.g_key_log", "self.g_fin_ok", "self.state", "input_buf.g_pos"],
     # g_fin_ok := outcome of the comparison, recorded where the key is about to be committed
     # (C03: extensional equality, length included, with the MAC over the transcript before the client Finished - H8)
@@ -546,12 +659,13 @@ R.contract(
         _AUTH_BUT_FIN,
         # accepted, and the read key released, only when the received MAC equals the expected one
         "self.g_fin_ok",
+        LIVE, _EOF,
     ],
     on_raise={
-        "Exception": _FAIL,
+        ALERT: _FAIL, BRE: _FAIL,
         "CallbackError": ["self.state == old(self.state)", _AUTH_BUT_FIN, "self.g_fin_ok", "same(self._enc_key, old(self._enc_key))"],
     },
-    prop=["C11"],
+    prop=["C11", "C05"],
 )
 
 # ------------------------------------------------------------------------------------------------ remaining stubs
@@ -561,9 +675,11 @@ R.extern_module(
     """
 class X25519PrivateKey:
     def exchange(self, peer_public_key) -> bytes: ...
+    def public_key(self) -> Any: ...
 
 class X448PrivateKey:
     def exchange(self, peer_public_key) -> bytes: ...
+    def public_key(self) -> Any: ...
 
 class EcPrivateKey:
     def exchange(self, algorithm, peer_public_key) -> bytes: ...
@@ -573,32 +689,49 @@ class SigningKey:
     def sign(self, data: bytes, *params) -> bytes: ...
 """,
 )
+# exchange(): ValueError for a low-order / off-curve peer value (X25519, X448: all-zero shared secret) or a curve mismatch (ECDH)
 for _k in ("X25519PrivateKey.exchange", "X448PrivateKey.exchange", "EcPrivateKey.exchange"):
-    R.contract(_k, params={"peer_public_key": "Any", "algorithm": "Any"}, returns="bytes", raises={"Exception": None}, **_EXT)
-R.contract("EcPrivateKey.public_key", returns="Any", **_EXT)
-R.contract("SigningKey.sign", params={"data": "bytes", "params": "Any"}, returns="bytes", raises={"Exception": None}, **_EXT)
+    R.contract(_k, params={"peer_public_key": "Any", "algorithm": "Any"}, returns="bytes", raises={"ValueError": None}, **_EXT)
+# an EllipticCurvePublicKey (the local one, and a peer key that passed isinstance(.., ec.EllipticCurvePublicKey)) has `curve`
+R.consts.setdefault("OPAQUE_HAS_ATTR", {})["curve"] = ["EllipticCurvePublicKey"]
+R.contract("EcPrivateKey.public_key", returns="Any", ensures=["isa_opaque(result, 'EllipticCurvePublicKey')"], **_EXT)
+# sign(): the parameters are those of signature_algorithm_params for an algorithm that _signature_algorithms_for_private_key
+# selected for THIS key type (local configuration): total
+R.contract("SigningKey.sign", params={"data": "bytes", "params": "Any"}, returns="bytes", **_EXT)
 R.contract("ec.ECDH", returns="Any", **_EXT)
-R.contract("X509Certificate.public_bytes", returns="bytes", raises={"Exception": None}, **_EXT)
+R.contract("X509Certificate.public_bytes", returns="bytes", **_EXT)
 R.contract("os.urandom", returns="bytes", ensures=["len(result) == a0"], trusted=True, note="stdlib")
-R.contract("struct.unpack", returns="tuple[int]", raises={"Exception": None}, trusted=True, note="stdlib")
-R.contract("decode_public_key", params={"key_share": "Optional[tuple[int,bytes]]"}, returns="Optional[Any]", raises={"Exception": None}, trusted=True,
-           note="tls.py wrapper around cryptography public-key decoding: returns an opaque key object or None, may raise")
+R.contract("struct.unpack", returns="tuple[int]", trusted=True, note="stdlib struct.unpack('I', <4 bytes from os.urandom>): total")
+# decode_public_key (16 lines; dispatch on the group code over the module-level table GROUP_TO_CURVE of cryptography curve
+# classes - outside the engine's subset): assumed BY READING, its raise set cross-checked natively on random and malformed
+# key shares (tools/repro/tls_crypto_stub_probe.py): the three cryptography decoders raise ValueError only, which the
+# function converts into AlertIllegalParameter; an unknown group gives None.  `key_share[0]` needs a key share: None
+# (a ServerHello WITHOUT the key_share extension) is a TypeError - a precondition that the callers must establish
+R.contract("decode_public_key", params={"key_share": "Optional[tuple[int,bytes]]"}, returns="Optional[Any]",
+           requires=["key_share is not None"], raises={"AlertIllegalParameter": None}, trusted=True,
+           note="tls.py wrapper around cryptography public-key decoding: an opaque key object, None for an unknown group, AlertIllegalParameter for a malformed share")
 R.ufunc("key_sig_algs", ["Optional[SigningKey]"], "list[int]")
 R.contract("Context._signature_algorithms_for_private_key", returns="list[int]", trusted=True, use_invariant=False,
-           ensures=["same(result, key_sig_algs(self.certificate_private_key))"],
+           ensures=["same(result, key_sig_algs(self.certificate_private_key))", "sigs_known(result)"],
            note="tls.py: classifies the configured private key with isinstance on cryptography types; reads only, result an opaque but FIXED function of the key object (key_sig_algs)")
-R.contract("Context._build_session_ticket", params={"other_extensions": "Optional[list[tuple[int,bytes]]]"}, returns="SessionTicket", raises={"Exception": None}, trusted=True, use_invariant=False,
-           note="tls.py: derives the resumption secret (HKDF) and builds a SessionTicket record; reads only")
-R.field_types("KeyScheduleProxy")
-R.contract("KeyScheduleProxy.select", params={"cipher_suite": "int"}, returns="KeySchedule", raises={"Exception": None}, **_KS)
+R.contract("Context._build_session_ticket", params={"other_extensions": "Optional[list[tuple[int,bytes]]]"}, returns="SessionTicket", trusted=True, use_invariant=False,
+           requires=["self.key_schedule is not None", "len(new_session_ticket.ticket_nonce) <= 255", "0 <= new_session_ticket.ticket_lifetime < 4294967296"],
+           note="tls.py: derives the resumption secret (HKDF-Expand-Label over the ticket nonce, at most 255 bytes) and builds a SessionTicket record (lifetime < 2^32 s fits a timedelta); reads only; total under these bounds (by reading + native probe)")
+# KeyScheduleProxy: one KeySchedule per offered cipher suite (ghost g_suites = the list it was built from, g_gen = how often
+# extract() ran on all of them); select() is a dict lookup: KeyError for a suite it was not built with
+R.contract("KeyScheduleProxy.select", params={"cipher_suite": "int"}, returns="KeySchedule",
+           raises={"KeyError": "not int_in(self.g_suites, cipher_suite)"},
+           ensures=["result.generation == self.g_gen", "result.cipher_suite == cipher_suite"], **_KS)
 for _p in ("certificate", "certificate_verify", "finished", "new_session_ticket", "server_hello", "encrypted_extensions", "certificate_request"):
     R.contract(
         "push_" + _p,
         trusted=True,
-        raises={"Exception": None},
+        # what the push_* serializers raise for a buffer that is too small: BufferWriteError from the push of a value,
+        # BufferReadError from push_block's seek() when not even the length prefix fits (contracts/quic_codecs.py, C17)
+        raises={"BufferWriteError": None, "BufferReadError": None},
         modifies=["buf.g_pos", "buf.g_mem"],
         ensures=["buf.g_pos >= old(buf.g_pos)", "buf.g_cap == old(buf.g_cap)"],
-        note="tls.py message serializer: trusted stub (appends to the buffer, BufferWriteError when full)",
+        note="tls.py message serializer: trusted stub (appends to the buffer, BufferWriteError / BufferReadError when it is full)",
     )
 # negotiate(): first supported value that was offered; otherwise the given alert (or None) - executed at call sites
 # (inline contract with the loop invariant, and the standalone raises-iff / first-common contract: contracts/tls_auth.py, C03)
@@ -609,8 +742,8 @@ R.contract(
     "Context._server_expect_finished",
     use_invariant=False,
     frame=True,
-    requires=["self.key_schedule is not None"],
-    raises={"CallbackError": None, "Exception": None},
+    requires=["self.key_schedule is not None", "self._dec_key is not None"],
+    raises={"CallbackError": None, BWE: None, BRE: None, "MemoryError": None},
     modifies=["self._expected_verify_data", "self.g_fin_base", "self.g_fin_key", "self._new_session_ticket", "self.state", "onertt_buf.g_pos", "onertt_buf.g_mem", _HASH],
     ghost_at={"self._expected_verify_data = self.key_schedule.finished_verify_data(self._dec_key)": {"self.g_fin_base": "self.key_schedule.g_hash", "self.g_fin_key": "self._dec_key"}},
     ensures=[
@@ -622,20 +755,20 @@ R.contract(
         # the transcript only grows (by the anticipated client Finished)
         "hash_extends(self.key_schedule.g_hash, old(self.key_schedule.g_hash))",
     ],
-    on_raise={"Exception": ["self.state == old(self.state)"], "CallbackError": ["self.state == old(self.state)"]},
-    prop=["C11"],
+    on_raise={k_: ["self.state == old(self.state)"] for k_ in (CBE, BWE, BRE, "MemoryError")},
+    prop=["C11", "C05"],
 )
 
 # 4.6.1: NewSessionTicket after the handshake: no state change, no keys
 R.contract(
     "Context._client_handle_new_session_ticket",
     frame=True,
-    requires=["self.state == State.CLIENT_POST_HANDSHAKE"],
-    raises=dict(_NOUM, CallbackError=None, Exception=None),
+    requires=["self.state == State.CLIENT_POST_HANDSHAKE", LIVE] + _MSG(4),
+    raises={"AlertUnexpectedMessage": "False", ALERT: None, BRE: None, CBE: None},
     modifies=["input_buf.g_pos"],
-    ensures=["self.state == old(self.state)", "len(self.g_key_log) == len(old(self.g_key_log))", "keys_same(self)", "auth_same(self)"],
-    on_raise={"Exception": _FAIL, "CallbackError": _FAIL},
-    prop=["C11"],
+    ensures=["self.state == old(self.state)", "len(self.g_key_log) == len(old(self.g_key_log))", "keys_same(self)", "auth_same(self)", LIVE, _EOF],
+    on_raise={ALERT: _FAIL, BRE: _FAIL, "CallbackError": _FAIL},
+    prop=["C11", "C05"],
 )
 
 # A.1 WAIT_SH -ServerHello-> WAIT_EE.  7.1: the handshake secrets exist once the ServerHello is processed; the
@@ -646,15 +779,15 @@ _HELLO_KEEP = "self.g_cv_ok == old(self.g_cv_ok) and self.g_fin_ok == old(self.g
 R.contract(
     "Context._client_handle_hello",
     frame=True,
-    requires=["self.state == State.CLIENT_EXPECT_SERVER_HELLO"],
-    raises=dict(_NOUM, CallbackError=None, Exception=None),
+    requires=["self.state == State.CLIENT_EXPECT_SERVER_HELLO", LIVE] + _MSG(2),
+    raises={"AlertUnexpectedMessage": "False", ALERT: None, BRE: None, CBE: None},
     modifies=["self.key_schedule", "self._session_resumed", "self._key_schedule_psk", "self._key_schedule_proxy", "self._dec_key", "self._enc_key", "self.g_key_log", "self.g_psk_sel", "self.state", "input_buf.g_pos"] + _KS_FIELDS,
     ghost_at={
         "cipher_suite = negotiate(self._cipher_suites, [peer_hello.cipher_suite], AlertHandshakeFailure('Unsupported cipher suite'))": {
             "self.g_psk_sel": "self.g_psk_sel or (self._key_schedule_psk is not None and peer_hello.pre_shared_key is not None and some(peer_hello.pre_shared_key) == 0)"
         }
     },
-    loops={0: dict(invariant=[])},
+    loops={0: dict(invariant=["0 <= _i0"])},
     ensures=[
         "self.state == State.CLIENT_EXPECT_ENCRYPTED_EXTENSIONS",
         "same(self.g_key_log, old(self.g_key_log) + [(Direction.DECRYPT, Epoch.HANDSHAKE)])",
@@ -662,12 +795,14 @@ R.contract(
         "self.key_schedule is not None",
         "implies(self._session_resumed and not old(self._session_resumed), self.g_psk_sel)",
         _HELLO_KEEP,
+        LIVE, _EOF,
     ],
     on_raise={
-        "Exception": ["self.state == old(self.state)", "len(self.g_key_log) == len(old(self.g_key_log))", "keys_same(self)", _HELLO_KEEP],
+        ALERT: ["self.state == old(self.state)", "len(self.g_key_log) == len(old(self.g_key_log))", "keys_same(self)", _HELLO_KEEP],
+        BRE: ["self.state == old(self.state)", "len(self.g_key_log) == len(old(self.g_key_log))", "keys_same(self)", _HELLO_KEEP],
         "CallbackError": ["self.state == old(self.state)", "same(self._enc_key, old(self._enc_key))", _HELLO_KEEP],
     },
-    prop=["C11"],
+    prop=["C11", "C05"],
 )
 
 # A.1 WAIT_FINISHED -Finished-> CONNECTED.  4.4.4: "Recipients of Finished messages MUST verify that the contents
@@ -676,8 +811,10 @@ R.contract(
 R.contract(
     "Context._client_handle_finished",
     frame=True,
-    requires=["self.state == State.CLIENT_EXPECT_FINISHED"],
-    raises=dict(_NOUM, CallbackError=None, Exception=None),
+    requires=["self.state == State.CLIENT_EXPECT_FINISHED", LIVE] + _MSG(20),
+    assume_pre=[CHAIN],  # local configuration (type annotation of Context.certificate_chain), see chain_present
+    # BufferWriteError: the caller's HANDSHAKE output buffer is too small for the client's own flight (local certificate chain)
+    raises={"AlertUnexpectedMessage": "False", ALERT: None, BRE: None, CBE: None, BWE: None},
     modifies=["self._dec_key", "self._enc_key", "self.g_key_log", "self.g_fin_ok", "self.state", "input_buf.g_pos", "output_buf.g_pos", "output_buf.g_mem"] + _KS_FIELDS,
     # (C03) g_fin_ok: the received verify_data EQUALS (same length, same bytes) the MAC over the transcript AS IT WAS ON
     # ENTRY - before this Finished message - under the server handshake traffic secret; it does not mention the local
@@ -692,21 +829,24 @@ R.contract(
         "same(self.g_key_log, old(self.g_key_log) + [(Direction.DECRYPT, Epoch.ONE_RTT)] + [(Direction.ENCRYPT, Epoch.ONE_RTT)])",
         "self.g_fin_ok",
         _AUTH_BUT_FIN,
+        LIVE, _EOF,
     ],
     on_raise={
         # nothing is released unless the Finished matched
-        "Exception": ["self.state == old(self.state)", _AUTH_BUT_FIN, "len(self.g_key_log) == len(old(self.g_key_log)) or self.g_fin_ok", "same(self.g_key_log, old(self.g_key_log)) or self.g_fin_ok"],
+        ALERT: ["self.state == old(self.state)", _AUTH_BUT_FIN, "len(self.g_key_log) == len(old(self.g_key_log)) or self.g_fin_ok", "same(self.g_key_log, old(self.g_key_log)) or self.g_fin_ok"],
+        BRE: ["self.state == old(self.state)", _AUTH_BUT_FIN, "len(self.g_key_log) == len(old(self.g_key_log)) or self.g_fin_ok", "same(self.g_key_log, old(self.g_key_log)) or self.g_fin_ok"],
+        BWE: ["self.state == old(self.state)", _AUTH_BUT_FIN, "self.g_fin_ok"],
         "CallbackError": ["self.state == old(self.state)", _AUTH_BUT_FIN, "self.g_fin_ok"],
     },
-    prop=["C11"],
+    prop=["C11", "C05"],
 )
 
 # A.2 START -ClientHello-> (flight sent) WAIT_CERT | WAIT_FINISHED.  7.1: both handshake secrets and the server's
 # application write secret exist after the server's own Finished; 0-RTT read keys only for an accepted PSK.
 R.contract(
     "Context._server_handle_hello",
-    requires=["self.state == State.SERVER_EXPECT_CLIENT_HELLO"],
-    raises=dict(_NOUM, CallbackError=None, Exception=None),
+    requires=["self.state == State.SERVER_EXPECT_CLIENT_HELLO", LIVE] + _MSG(1),
+    raises={"AlertUnexpectedMessage": "False", ALERT: None, BRE: None, CBE: None, BWE: None, "MemoryError": None},
     modifies=["self.key_schedule", "self._session_resumed", "self._dec_key", "self._enc_key", "self._next_dec_key", "self.g_key_log", "self.state", "self.alpn_negotiated",
               "self.early_data_accepted", "self.received_extensions", "self._psk_key_exchange_mode", "self._expected_verify_data", "self.g_fin_base", "self.g_fin_key", "self._new_session_ticket",
               "self.client_random", "self.server_random", "self.legacy_session_id", "self._x25519_private_key", "self._x448_private_key", "self._ec_private_keys",
@@ -715,12 +855,10 @@ R.contract(
         "self.state == State.SERVER_EXPECT_CERTIFICATE or self.state == State.SERVER_EXPECT_FINISHED",
         "self.key_schedule is not None",
         _HELLO_KEEP + " and self.g_psk_sel == old(self.g_psk_sel)",
+        LIVE, _EOF,
     ],
-    on_raise={
-        "Exception": ["self.state == old(self.state)", _HELLO_KEEP + " and self.g_psk_sel == old(self.g_psk_sel)"],
-        "CallbackError": ["self.state == old(self.state)", _HELLO_KEEP + " and self.g_psk_sel == old(self.g_psk_sel)"],
-    },
-    prop=["C11"],
+    on_raise={k_: ["self.state == old(self.state)", _HELLO_KEEP + " and self.g_psk_sel == old(self.g_psk_sel)"] for k_ in (ALERT, BRE, CBE, BWE, "MemoryError")},
+    prop=["C11", "C05"],
 )
 
 # ------------------------------------------------------------------------------------------------ entry point
@@ -732,27 +870,43 @@ if "int.from_bytes" not in R.contracts:  # contracts/quic_codecs.py (C17) gives 
 R.field_types("Context", _receive_buffer="bytes")
 R.contract(
     "Context._client_send_hello",
-    raises={"CallbackError": None, "Exception": None},
+    # no peer input is involved (handle_message ignores its input in CLIENT_HANDSHAKE_START); what it can raise is local:
+    # the 0-RTT key callback, an output buffer too small for the ClientHello
+    raises={"CallbackError": None, BWE: None},
     modifies=["self.state", "self._key_schedule_psk", "self._key_schedule_proxy", "self._x25519_private_key", "self._x448_private_key", "self._ec_private_keys", "self.g_key_log",
-              "output_buf.g_pos", "output_buf.g_mem"] + _KS_FIELDS,
-    ensures=["self.state == State.CLIENT_EXPECT_SERVER_HELLO", "auth_same(self)", "same(self._enc_key, old(self._enc_key)) and same(self._dec_key, old(self._dec_key))"],
-    on_raise={"Exception": ["self.state == old(self.state)", "auth_same(self)"], "CallbackError": ["self.state == old(self.state)", "auth_same(self)"]},
+              "output_buf.g_pos", "output_buf.g_mem", "KeyScheduleProxy.g_suites[*]", "KeyScheduleProxy.g_gen[*]"] + _KS_FIELDS,
+    # (C05) L for the first receive state: the proxy holds one schedule per offered suite, each extracted once (as the PSK schedule)
+    ensures=["self.state == State.CLIENT_EXPECT_SERVER_HELLO", "auth_same(self)", "same(self._enc_key, old(self._enc_key)) and same(self._dec_key, old(self._dec_key))", LIVE],
+    on_raise={BWE: ["self.state == old(self.state)", "auth_same(self)"], "CallbackError": ["self.state == old(self.state)", "auth_same(self)"]},
     note="NOT verified here (key generation, ClientHello serialisation): contract assumed at handle_message's call site",
 )
 R.contract(
     "Context.handle_message",
     params={"output_buf": "dict[Epoch,Buffer]"},
-    raises={"Exception": None},
+    # ASSUMED at entry (see L above): holds after __init__ and after every normal return (ensures below), not after an
+    # exceptional one - the caller must not feed a Context again after handle_message raised (QuicConnection: the alert
+    # closes the connection, receive_datagram drops everything in the closing / draining states).  The three epoch buffers
+    # exist (QuicConnection._initialize@tables, contracts/quic_noraise.py)
+    assume_pre=[LIVE, "Epoch.INITIAL in output_buf and Epoch.HANDSHAKE in output_buf and Epoch.ONE_RTT in output_buf"],
+    # (C05) THE claim: whatever bytes arrive in whatever state, only tls.Alert subclasses leave - a truncated message
+    # (BufferReadError of the parsers) is converted into AlertDecodeError here - plus what is not the peer's doing: an
+    # exception of a callback installed by the embedding code (CallbackError), MemoryError (allocation of the message
+    # buffer), BufferWriteError (caller's output buffer too small for the LOCAL flight: certificate chain, extensions)
+    raises={ALERT: None, CBE: None, BWE: None, "MemoryError": None,
+            # local trust configuration that cannot be loaded (verify_certificate, contracts/tls_auth.py)
+            "ValueError": None, "Error": None},
+    on_raise={"ValueError": ["self._verify_mode != ssl.CERT_NONE and vc_config_bad(self._cadata, self._cafile, self._capath)"],
+              "Error": ["self._verify_mode != ssl.CERT_NONE and vc_config_bad(self._cadata, self._cafile, self._capath)"]},
     modifies=[],
-    loops={0: dict(invariant=["self.state != State.CLIENT_HANDSHAKE_START"] + H_MAIN + H_SERVER_AUTH + H_FIN, modifies=[
+    loops={0: dict(invariant=["self.state != State.CLIENT_HANDSHAKE_START", LIVE] + H_MAIN + H_SERVER_AUTH + H_FIN + H_NORAISE, modifies=[
         "self.state", "self._enc_key", "self._dec_key", "self.g_key_log", "self.g_cv_ok", "self.g_psk_sel", "self._session_resumed",
         "self.key_schedule", "self._key_schedule_psk", "self._key_schedule_proxy", "self._peer_certificate", "self._peer_certificate_chain",
         "self._certificate_request", "self.alpn_negotiated", "self.early_data_accepted", "self.received_extensions",
         "self.g_fin_ok", "self.g_fin_base", "self.g_fin_key", "self._expected_verify_data", "self._new_session_ticket", "self._next_dec_key", "self._psk_key_exchange_mode",
         "self.client_random", "self.server_random", "self.legacy_session_id", "self._x25519_private_key", "self._x448_private_key", "self._ec_private_keys",
         "Buffer.g_pos[*]", "Buffer.g_mem[*]", "Buffer.g_cap[*]"] + _KS_FIELDS)},
-    ensures=["self.state != State.CLIENT_HANDSHAKE_START"],
-    prop=["C11"],
+    ensures=["self.state != State.CLIENT_HANDSHAKE_START", LIVE],
+    prop=["C11", "C05"],
 )
 
 # construction: establishes H (client: CLIENT_HANDSHAKE_START, server: SERVER_EXPECT_CLIENT_HELLO; nothing verified,
@@ -782,17 +936,21 @@ R.field_types(
 R.contract(
     "Context.__init__",
     params={"alpn_protocols": "Optional[list[str]]", "cipher_suites": "Optional[list[int]]", "logger": "Optional[Callable]", "verify_mode": "Optional[int]"},
+    # local configuration: only cipher suites tls.py has a hash for (CIPHER_SUITES; QuicConfiguration's default is None)
+    requires=["cipher_suites is None or suites_known(some(cipher_suites))"],
     ghost_exit={"self.g_cv_ok": "False", "self.g_psk_sel": "False", "self.g_fin_ok": "False"},
     ensures=[
         "self.state == (State.CLIENT_HANDSHAKE_START if is_client else State.SERVER_EXPECT_CLIENT_HELLO)",
         "not self._session_resumed and self._peer_certificate is None and self.key_schedule is None and self._enc_key is None and self._dec_key is None",
         "not self.g_cv_ok and not self.g_psk_sel and not self.g_fin_ok",
+        LIVE,
     ],
-    prop=["C11"],
+    prop=["C11", "C05"],
 )
 
 # ---- stubs used only by _server_handle_hello
 R.contract("Context.get_session_ticket_cb", callback=True, trusted=True, returns="Optional[SessionTicket]", raises={"CallbackError": None}, note="session ticket lookup callback")
 R.contract("KeySchedule.__init__", params={"cipher_suite": "int"}, modifies=["self.generation", "self.cipher_suite", "self.g_hash", "self.secret", "self.algorithm", "self.hash", "self.hash_empty_value"],
-           raises={"Exception": None}, ensures=["self.generation == 0", "self.cipher_suite == cipher_suite"], **_KS)
+           # cipher_suite_hash: CIPHER_SUITES[cipher_suite] - KeyError for a suite without a table entry
+           raises={"KeyError": "not suite_known(cipher_suite)"}, ensures=["self.generation == 0", "self.cipher_suite == cipher_suite"], **_KS)
 R.contract("SessionTicket.is_valid", returns="bool", trusted=True, note="compares the ticket validity window with the wall clock (utcnow): opaque bool")
